@@ -12,6 +12,7 @@ TS_RE = re.compile(r"^(\d{4})-(\d\d)-(\d\d)T(\d\d):(\d\d):(\d\d)(?:\.(\d+))?Z$")
 UUID_RE = re.compile(r"^[0-9a-fA-F]{8}-[0-9a-fA-F]{4}-[0-9a-fA-F]{4}-[0-9a-fA-F]{4}-[0-9a-fA-F]{12}$")
 HEX_RE = re.compile(r"^([0-9a-fA-F]{2})+$")
 SAFE_RE = re.compile(r"^[A-Za-z0-9 _.:/=+@,;!?#$%&*()\[\]{}<>|~^'-]*$")
+SEL_RE = re.compile(r"^[A-Za-z0-9_-]+(\.(\[\d+\]|[A-Za-z0-9_-]+))*$")      # shape of a selector: steps separated by dots (facts only; what it addresses is for the spec to decide)
 _MODELS = {}
 
 
@@ -57,7 +58,7 @@ def id_fact(s):
 
 def b64_ok(s):
     try:
-        return base64.b64encode(base64.b64decode(s, validate=True)).decode() == s and len(s) > 0
+        return base64.b64encode(base64.b64decode(s, validate=True)).decode() == s
     except Exception:  # noqa
         return False
 
@@ -73,7 +74,8 @@ def node(x):
         fin = not (math.isnan(x) or math.isinf(x))
         return {"k": "float", "finite": fin, "integral": fin and x == int(x), "v": int(x) if fin and abs(x) < 2 ** 31 - 1 else 0}
     if isinstance(x, str):
-        return {"k": "str", "s": x if len(x) <= 60 and SAFE_RE.match(x) else "", "long": len(x) > 60, "ts": ts_fact(x), "id": id_fact(x), "hex": bool(HEX_RE.match(x)), "b64": b64_ok(x)}
+        return {"k": "str", "s": x if len(x) <= 60 and SAFE_RE.match(x) else "", "long": len(x) > 60, "ts": ts_fact(x), "id": id_fact(x), "hex": bool(HEX_RE.match(x)), "b64": b64_ok(x),
+                "sel": x.split(".") if SEL_RE.match(x) else []}
     if isinstance(x, list):
         return {"k": "list", "items": [node(i) for i in x]}
     if isinstance(x, dict):
